@@ -55,8 +55,8 @@ class C05(engine.Property):
     max_steps = 90
     uses_restart = True
     budget = {
-        "quick": {"runs": 16000, "wall_cap_s": 900},
-        "thorough": {"runs": 1200000, "wall_cap_s": 3300},
+        "quick": {"runs": 32000, "wall_cap_s": 900},
+        "thorough": {"runs": 1000000, "wall_cap_s": 5400},
     }
     rule = (
         "one evaluation = one seeded history applied to twin worlds (A: caching per the run's "
